@@ -63,11 +63,12 @@ class Engine:
     def rule(self, prop):
         return ("One evaluation = one drawn command line (any subset of -n -m "
                 "-s -a -e -d -R -u -M -r -c -w -f -L --printf --time-format "
-                "-q -o -O -j -T -C with drawn values; omitted options exercise "
+                "-q -o -O -j -T with drawn values; omitted options exercise "
                 "the documented defaults), one drawn recording (raw file, wav "
                 "file, or simulated stdin), one seeded schedule (policy, "
-                "timer firings, stalls, pre-emption) and optionally a "
-                "KeyboardInterrupt injected while main sleeps. "
+                "timer firings, stalls, pre-emption) and - only in the runs "
+                "engine stopmix makes for C14 - a KeyboardInterrupt injected "
+                "while main sleeps. "
                 "auditok.cmdline.main runs whole under the scheduler. "
                 "distinct = distinct hash of (argv shape, event sequence); "
                 "non-trivial = at least one detection expected and at least "
@@ -94,12 +95,15 @@ class Engine:
     def assumptions(self, prop):
         return ["documented defaults are hard-coded in the oracle",
                 "time fields are judged structurally (3 decimals / integer / "
-                "zero-padded fields recomposing to within 1 ms)",
+                "zero-padded fields recomposing to the floor or ceiling of "
+                "the value in milliseconds)",
                 "formatter and argparse sub-claims are decided only on the "
                 "values the end-to-end runs produce",
-                "for eagerly loaded files an interrupted run is judged "
+                "interrupted runs are generated only for C14 (engine "
+                "stopmix): for eagerly loaded files such a run is judged "
                 "against SOME block-prefix of the input (existential), for "
-                "stdin / lazy files against the prefix actually read"]
+                "stdin / lazy files against a prefix between what had been "
+                "read at the request and in the end"]
 
     def describe(self, sc):
         d = dict(sc)
